@@ -14,6 +14,7 @@ import (
 func init() {
 	register("C16", func(c *core.Ctx, tier string) {
 		jsonpNoBinary(c, "C16.6b")
+		v3BinaryPayloadCodec(c, "C16.10", false)
 		errPolarity(c, "C16.4b", "transports")
 		pollingEffects(c, "C16.8")
 		c16Encoded(c)
